@@ -150,7 +150,12 @@ func (prophet *Prophet) transitivity(peer bpv7.EndpointID) {
 func (prophet *Prophet) sendMetadata(destination bpv7.EndpointID) {
 	prophet.dataMutex.RLock()
 	source := prophet.c.NodeId
-	metadataBlock := bpv7.NewProphetBlock(prophet.predictabilities)
+	// The block is serialised later and without the lock, thus it needs its own copy of the map.
+	predictabilities := make(map[bpv7.EndpointID]float64, len(prophet.predictabilities))
+	for node, pred := range prophet.predictabilities {
+		predictabilities[node] = pred
+	}
+	metadataBlock := bpv7.NewProphetBlock(predictabilities)
 	prophet.dataMutex.RUnlock()
 
 	err := sendMetadataBundle(prophet.c, source, destination, metadataBlock)
@@ -304,8 +309,10 @@ func (prophet *Prophet) SenderForBundle(bp BundleDescriptor) (sender []cla.Conve
 
 	for _, cs := range prophet.c.claManager.Sender() {
 		peerID := cs.GetPeerEndpointID()
+		prophet.dataMutex.RLock()
 		peerPred := prophet.peerPredictabilities[peerID][destination]
 		ownPred := prophet.predictabilities[destination]
+		prophet.dataMutex.RUnlock()
 
 		// is the peers delivery predictability for the destination greater than ours?
 		if peerPred > ownPred {
